@@ -183,7 +183,6 @@ where
                             .unwrap_or_else(|_| Err(io::Error::from(io::ErrorKind::BrokenPipe)));
 
                         let _ = service_stream.shutdown();
-                        unsafe { libc::close(service_stream.as_raw_fd()) };
                         r1?;
 
                         let _ = rx_end.recv()?;
@@ -200,7 +199,6 @@ where
                             .unwrap_or_else(|_| Err(io::Error::from(io::ErrorKind::BrokenPipe)));
 
                         let _ = service_stream.shutdown();
-                        unsafe { libc::close(service_stream.as_raw_fd()) };
                         r2?;
 
                         let _ = rx_end.recv()?;
